@@ -90,7 +90,7 @@ class FromVectorMonitor(taps.Monitor):
         import menpo.transform as mt
         if isinstance(o, mt.Rotation) and len(v) == 4 and (abs(float(np.dot(v, v)) - 1.0) > 1e-9 or v[0] <= 0):
             return None   # only canonical unit quaternions are in the quantifier
-        if isinstance(o, mt.Similarity) and np.linalg.det(np.asarray(o.h_matrix)[:-1, :-1]) < 0:
+        if isinstance(o, mt.Similarity) and not isinstance(o, (mt.UniformScale, mt.Translation)) and np.linalg.det(np.asarray(o.h_matrix)[:-1, :-1]) < 0:
             return None   # a mirrored member has no parameter vector in this parametrisation (quaternion / [a, b, tx, ty])
         return {"d": digest(o), "own": own, "v": v.copy(), "vflag": v.flags.writeable}
 
@@ -124,6 +124,21 @@ class FromVectorMonitor(taps.Monitor):
                 if isinstance(r, mt.Homogeneous):
                     r.apply(tx.probe(np.random.default_rng(3), r.n_dims, 4))
                     r.h_matrix.shape
+                    # ... and is what its class says it is (a Translation is a translation matrix, an Affine has the affine bottom row)
+                    # ... and is consistent with itself: it maps points the way its own matrix says, and an affine-family
+                    # object keeps the affine bottom row its class refuses to be constructed without
+                    from vf import refmap
+                    x = tx.probe(np.random.default_rng(3), r.n_dims, 4)
+                    ref = refmap.reference_apply(r, x)
+                    h = np.asarray(r.h_matrix, dtype=float)
+                    bad = None
+                    if ref is not None and tx.maxdiff(np.asarray(r.apply(x))[ref[1]], ref[0][ref[1]]) > 1e-8 * max(1.0, float(np.abs(ref[0][ref[1]]).max()) if ref[1].any() else 1.0):
+                        bad = "apply disagrees with its own h_matrix"
+                    elif isinstance(r, mt.Affine) and h.shape[0] == h.shape[1] and (np.abs(h[-1, :-1]).max() > 0 or h[-1, -1] != 1):
+                        bad = "affine-family object with bottom row %s" % h[-1].tolist()
+                    if bad:
+                        ctx.fail("wrong_length_vector_gave_a_malformed_object", cls=cls, mech="inconsistent_with_its_own_matrix", error=bad[:200],
+                                 given=len(st["v"]), expected=len(own))
                 else:
                     getattr(r, "n_points", None)
                     getattr(r, "shape", None)
@@ -162,6 +177,35 @@ class FromVectorMonitor(taps.Monitor):
                 ctx.fail("alignment_target_not_equal_to_aligned_source_after_update", cls=cls, err=e)
             if tx.maxdiff(r.source.points, o.source.points) > 0:
                 ctx.fail("alignment_source_changed_by_from_vector", cls=cls)
+            # the instance answers every query its template answers (options included) and can be retargeted like it
+            with taps.quiet():
+                qo, qr = warm.snapshot(o), warm.snapshot(r)
+                no, nr = [n for n, a in qo if not (isinstance(a, str) and a.startswith("raises:"))], [n for n, a in qr if not (isinstance(a, str) and a.startswith("raises:"))]
+                ctx.tap("instance_answers_its_templates_queries", "calls"); ctx.tap("instance_answers_its_templates_queries", "checked")
+                if no != nr:
+                    ctx.fail("from_vector_result_cannot_answer_a_query_its_template_answers", cls=cls, mech=",".join(sorted(set(no) ^ set(nr)))[:60])
+                else:
+                    for name in ("allow_mirror", "rotation"):
+                        a, b = dict(qo).get(name, None), dict(qr).get(name, None)
+                        if isinstance(a, (bool, np.bool_)) and a != b:
+                            ctx.fail("round_trip_lost_state", cls=cls, mech=name, why="option %s: %r -> %r" % (name, a, b))
+                import menpo.shape as ms
+                nt = np.asarray(r.target.points, dtype=float) + np.random.default_rng(len(st["v"])).normal(scale=0.3, size=r.target.points.shape)
+                try:
+                    o2 = o.copy()
+                    o2.set_target(ms.PointCloud(nt.copy()))
+                    ok_o = True
+                except Exception:
+                    ok_o = False
+                if ok_o:
+                    try:
+                        r2 = r.copy()
+                        r2.set_target(ms.PointCloud(nt.copy()))
+                        # same source, same options, same new target: the same fit, whatever parameters either held before
+                        if tx.maxdiff(r2.h_matrix, o2.h_matrix) > 1e-8 * max(1.0, float(np.abs(o2.h_matrix).max())):
+                            ctx.fail("from_vector_result_retargets_differently_from_its_template", cls=cls, err=tx.maxdiff(r2.h_matrix, o2.h_matrix))
+                    except Exception as e:
+                        ctx.fail("from_vector_result_cannot_be_retargeted", cls=cls, mech=type(e).__name__, error=repr(e)[:160])
         # ---- round trip of the object's own vector: complete state
         same = given.shape == own.shape and (np.array_equal(st["v"], own) if st["v"].dtype == own.dtype else False)
         if same:
@@ -281,6 +325,8 @@ def random_vector(rng, o, n):
         return rng.random(n) < 0.5
     if isinstance(o, (mt.UniformScale, mt.NonUniformScale)):
         v = rng.uniform(0.3, 3.0, n)
+        if rng.random() < 0.3 and n:
+            v = v * rng.choice([-1.0, 1.0], n)     # mirrored axes / a point reflection
         if rng.random() < 0.2 and n:
             v[rng.integers(0, n)] = 0.0          # a collapsed axis is a legal (if degenerate) scale: the constructors accept it
         return v
